@@ -1,6 +1,7 @@
 package ipfscluster
 
 import (
+	"context"
 	"time"
 
 	"github.com/ipfs/ipfs-cluster/api"
@@ -11,6 +12,7 @@ import (
 var vrfEntries = map[string]func(){
 	"VrfC10Closest": VrfC10Closest,
 	"VrfC10Repin":   VrfC10Repin,
+	"VrfC10Candidates": VrfC10Candidates,
 	"VrfC10Expiry":  VrfC10Expiry,
 }
 
@@ -225,4 +227,40 @@ func VrfC10Expiry() {
 	vrf_assert((unpins == 1) == want, "C10.expiry.exactly-expired")
 	vrf_assert(unpins <= 1, "C10.expiry.once")
 	vrf_reach("C10.expiry.end")
+}
+
+// VrfC10Candidates: who takes part in the "exactly one peer acts" partition.
+// The distance comparison runs over the members this peer trusts, without
+// itself and without the failed peer - an untrusted member (a follower, a peer
+// whose updates the others discard) must never be a candidate, or a pin that
+// hashes closest to it would be handled by nobody.
+func VrfC10Candidates() {
+	cons := &vrfConsensus{trusted: map[peer.ID]bool{}}
+	c := &Cluster{ctx: context.Background(), id: peer.ID("self"), config: &Config{}, consensus: cons}
+	members := []peer.ID{c.id, "pA", "pB", "pC"}
+	cons.peers = members
+	cons.trusted[c.id] = true
+	for _, p := range members[1:] {
+		cons.trusted[p] = vrf_nondet_bool("trusted")
+	}
+	exclude := []peer.ID{"", "pA", "pC", "stranger"}[vrf_choice("failed_peer", 4)]
+	dc, err := c.distances(c.ctx, exclude)
+	vrf_assert(err == nil && dc != nil, "C10.candidates.ok")
+	if dc == nil {
+		return
+	}
+	vrf_assert(dc.local == c.id, "C10.candidates.local-is-self")
+	for _, p := range members[1:] {
+		in := vrfIndexOf(dc.otherPeers, p) >= 0
+		want := vrf_and(cons.trusted[p], p != exclude)
+		vrf_assert(in == want, "C10.candidates.trusted-survivors-only")
+	}
+	vrf_assert(vrfIndexOf(dc.otherPeers, c.id) < 0, "C10.candidates.not-self")
+	for i, p := range dc.otherPeers {
+		vrf_assert(vrfIndexOf(members, p) >= 0, "C10.candidates.members-only")
+		for j := i + 1; j < len(dc.otherPeers); j++ {
+			vrf_assert(dc.otherPeers[j] != p, "C10.candidates.no-duplicate")
+		}
+	}
+	vrf_reach("C10.candidates.end")
 }
